@@ -181,13 +181,18 @@ def esc(s):
     return s.replace('&', '&amp;').replace('<', '&lt;')
 
 
-ALPHA = 'aabbc  '
-RARE = 'é<&x'
+ALPHA = list('aabbc  ')
+RARE = list('é<&x')
+# characters whose NFC / NFD / NFKC / casefold / UTF-16 forms differ in LENGTH from themselves: a search that works on a
+# normalised or re-encoded copy of the text reports shifted positions after any of them
+UNI = ['e\u0301', 'a\u030a', '\u212b', '\u2126', '\ufb01', '\u0130', '\U0001f600', '\u1112\u1161\u11ab', '\u00e9']
 
 
 def gen_text(rng, lo=0, hi=6, edge=False):
     n = rng.randint(lo, hi)
-    s = ''.join(rng.choice(ALPHA + (RARE if rng.random() < .15 else '')) for _ in range(n))
+    r = rng.random()
+    pool = ALPHA + (RARE if r < .15 else UNI if r < .40 else [])
+    s = ''.join(rng.choice(pool) for _ in range(n))
     if not edge:
         s = re.sub(' +', ' ', s)
     return s
@@ -241,8 +246,37 @@ def gen_paragraph(rng, edge=False, tag='text:p'):
     return '<%s%s>%s</%s>' % (tag, attrs, body, tag)
 
 
+def gen_body(rng, edge=False):
+    """content of an office:text body: paragraphs and headings, some nested in footnotes, comments, text boxes, list items
+    and table cells (a paragraph inside a paragraph is what a per-paragraph walk processes twice)"""
+    def para():
+        return gen_paragraph(rng, edge, tag='text:h' if rng.random() < .15 else 'text:p')
+    def nested_para():
+        inner = '<text:p>%s</text:p>' % esc(gen_text(rng, 2, 8))
+        kind = rng.randrange(3)
+        if kind == 0:
+            ins = ('<text:note text:note-class="footnote" text:id="nn%d"><text:note-citation>1</text:note-citation>'
+                   '<text:note-body>%s</text:note-body></text:note>' % (rng.randint(1, 9), inner))
+        elif kind == 1:
+            ins = ('<office:annotation office:name="aa%d">%s<dc:creator>c</dc:creator><dc:date>2020-01-01T00:00:00</dc:date>'
+                   '</office:annotation>' % (rng.randint(1, 9), inner))
+        else:
+            ins = ('<draw:frame draw:name="f%d" text:anchor-type="as-char" svg:width="1cm" svg:height="1cm"><draw:text-box>%s'
+                   '</draw:text-box></draw:frame>' % (rng.randint(1, 9), inner))
+        return '<text:p>%s%s%s</text:p>' % (esc(gen_text(rng, 1, 6)), ins, esc(gen_text(rng, 0, 5)))
+    blocks = []
+    for _ in range(rng.randint(2, 5)):
+        r = rng.random()
+        if r < .35: blocks.append(para())
+        elif r < .70: blocks.append(nested_para())
+        elif r < .85: blocks.append('<text:list><text:list-item>%s</text:list-item><text:list-item>%s</text:list-item></text:list>' % (para(), nested_para()))
+        else: blocks.append('<table:table table:name="t%d"><table:table-column/><table:table-row><table:table-cell>%s</table:table-cell>'
+                            '<table:table-cell>%s</table:table-cell></table:table-row></table:table>' % (rng.randint(1, 9), para(), para()))
+    return blocks
+
+
 REGEXES = ['a', 'b', 'c', 'ab', 'bc', 'b+', '[ab]', '[ab]+', 'a|c', 'c ', ' ', 'a b', ' +', '^a', 'c$', 'a.', r'\s', r'\bb',
-           '[^ ]+', 'é', 'x', 'ba?', '(a)(b)']
+           '[^ ]+', 'é', 'x', 'ba?', '(a)(b)', 'e\u0301', '\u212b', 'b.', '[a\ufb01]+']
 
 
 def json_default(o):
